@@ -109,6 +109,7 @@ class Native:
     def __init__(s, so):
         s.lib = ctypes.CDLL(so)
         L = s.lib
+        if not hasattr(L, 'n_mk_grid'): return   # a wrapper file without native shims (replay is done differently there)
         L.n_mk_grid.restype = ctypes.c_void_p; L.n_mk_grid.argtypes = [ctypes.POINTER(ctypes.c_double), ctypes.c_size_t]
         L.n_mk_support.restype = ctypes.c_void_p; L.n_mk_support.argtypes = [ctypes.c_void_p, ctypes.c_size_t, ctypes.c_size_t]
         L.n_grid_data.restype = ctypes.c_void_p; L.n_grid_data.argtypes = [ctypes.c_void_p]
